@@ -90,7 +90,7 @@ def gen_cases(tier, seed):
                 for bk, bl in (("default", None), ("post", [POST]), ("redirect", [REDIR]), ("soap", [SOAP]), ("post+redirect", [POST, REDIR]), ("artifact", [ART])):
                     cid = "%s-%s-%s-b:%s" % (lname, typ, issuer.split("//")[1].split(".")[0], bk)
                     cases.append({"id": cid, "sig": [lname, typ, issuer, bk], "layout": lname, "type": typ, "issuer": issuer, "bindings": bl})
-    for k in range(8 if tier == "quick" else 64):
+    for k in range(8 if tier == "quick" else 600):
         cases.append({"id": "refresh-%d" % k, "sig": ["refresh", k], "type": "refresh", "k": k})
     return cases
 
